@@ -8,15 +8,28 @@ C07 driver. Case lines (after the leading `C07` token):
 * `valid <overrides> => <ok|err>`
 * `rep <raw> <ops> <self> <before> <msgs> => <after>`
 
-`raw`: configured trusted_peers, comma separated, `*` or a peer index, `-` for none.
+* `cfg <raw> => <trustAll 0|1> <TrustedPeers> <trusted_peers printed by ToJSON>`
+`raw`: where the crdt configuration comes from: sources separated by `/`: `D` Default(), `L<list>` LoadJSON of a
+file with that trusted_peers, `E<list>` ApplyEnvVars with CLUSTER_CRDT_TRUSTEDPEERS=<list>, `A` ApplyEnvVars with
+the variable unset; a bare `<list>` is `L<list>`. `<list>`: comma separated, `*` or a peer index, `-` for none.
 `ops`: `T<n>`/`D<n>` calls, `-` for none. `overrides`: `Name:<int>` or `Name:-` (entry deleted).
 `msgs`: `<signer>:<pin>:<+|->`.
 -/
 namespace CV.C07
 open CV.Parse
 
-def parseRaw (s : String) : Option (List (Option Nat)) :=
+def parseList (s : String) : Option (List (Option Nat)) :=
   listOf (fun t => if t == "*" then some none else t.toNat?.map some) s
+
+def parseSource (s : String) : Option Source :=
+  if s == "D" then some .default
+  else if s == "A" then some (.env none)
+  else if s.startsWith "L" then (parseList (s.drop 1).toString).map .load
+  else if s.startsWith "E" then (parseList (s.drop 1).toString).map (fun l => .env (some l))
+  else (parseList s).map .load
+
+/-- the sources of the trust configuration -/
+def parseRaw (s : String) : Option (List Source) := (s.splitOn "/").mapM parseSource
 
 def parseOp (s : String) : Option TOp :=
   if s.startsWith "T" then (s.drop 1).toNat?.map .trust
@@ -76,7 +89,7 @@ def answerRpc (pre post : List String) : String :=
       if !kindOk k ovs then "bad-case policy-kind-does-not-match-overrides" else
       let registered := Gen.methods.contains ep
       let pol := applyOverrides Gen.policy ovs
-      let i : RpcInput := { kind := k, tracing := tr, ts := { mode := m, raw := raw, ops := ops }, self := self,
+      let i : RpcInput := { kind := k, tracing := tr, ts := { mode := m, srcs := raw, ops := ops }, self := self,
                             caller := caller, ep := ep, registered := registered }
       let trusted := match caller with
         | .self => true
@@ -102,9 +115,11 @@ def answerTrust (pre post : List String) : String :=
       pure (m, raw, ops, self, p, o)) with
     | none => "bad-case trust-parse"
     | some (m, raw, ops, self, p, o) =>
-      let i : TrustInput := { ts := { mode := m, raw := raw, ops := ops }, self := self, p := p }
+      let i : TrustInput := { ts := { mode := m, srcs := raw, ops := ops }, self := self, p := p }
       let expected := modelTrusted i.ts self p
-      let arm := (if m == .raft then "raft" else if starListed raw then "crdt-star" else if raw.isEmpty then "crdt-empty" else "crdt-list")
+      let eff := i.ts.raw
+      let arm := (if m == .raft then "raft" else if starListed eff then "crdt-star" else if eff.isEmpty then "crdt-empty" else "crdt-list")
+        ++ (if raw.any (fun s => match s with | .env _ => true | _ => false) then "+env" else "")
         ++ (if ops.isEmpty then "" else "+calls") ++ (if p == self then "/self" else if expected then "/trusted" else "/untrusted")
       let failed := failedNames (trustClauses i o)
       if !failed.isEmpty then "propfail " ++ ",".intercalate failed ++ " arm=" ++ arm
@@ -133,8 +148,8 @@ def answerRep (pre post : List String) : String :=
       pure (raw, ops, self, before, msgs, after)) with
     | none => "bad-case rep-parse"
     | some (raw, ops, self, before, msgs, after) =>
-      let i : RepInput := { ts := { mode := .crdt, raw := raw, ops := ops }, self := self, before := before, msgs := msgs }
-      let cfg := parseTrusted raw []
+      let i : RepInput := { ts := { mode := .crdt, srcs := raw, ops := ops }, self := self, before := before, msgs := msgs }
+      let cfg := modelCfg raw
       let expected := modelRep i
       let untrusted := msgs.filter (fun m => !(accepts Gen.crdt cfg self (stateAfter Gen.crdt cfg ops) m))
       let arm := if untrusted.isEmpty then "all-trusted" else if untrusted.length == msgs.length then "all-untrusted" else "mixed"
@@ -143,6 +158,27 @@ def answerRep (pre post : List String) : String :=
       else if !sameSet after expected then "diff arm=" ++ arm ++ " model=" ++ showNats expected
       else "ok arm=" ++ arm ++ (if untrusted.isEmpty then " trivial" else "")
   | _, _ => "bad-case rep-arity"
+
+def showRaw (l : List (Option Nat)) : String :=
+  if l.isEmpty then "-" else ",".intercalate (l.map (fun x => match x with | none => "*" | some n => toString n))
+
+def answerCfg (pre post : List String) : String :=
+  match pre, post with
+  | [raw], [ta, peers, printed] =>
+    match (do
+      let raw ← parseRaw raw; let ta ← bool01 ta; let peers ← nats peers; let printed ← parseList printed
+      pure (raw, ta, peers, printed)) with
+    | none => "bad-case cfg-parse"
+    | some (srcs, ta, peers, printed) =>
+      let m := modelCfg srcs
+      let arm := "cfg" ++ (if srcs.any (fun s => match s with | .env (some _) => true | _ => false) then "-env" else "")
+        ++ (if starListed (effectiveList srcs) then "-star" else "-list")
+      let failed := failedNames (cfgClauses srcs ta peers)
+      if !failed.isEmpty then "propfail " ++ ",".intercalate failed ++ " arm=" ++ arm
+      else if ta != m.trustAll || peers != m.listed || printed != toJSONTrust m then
+        "diff arm=" ++ arm ++ " model=" ++ (if m.trustAll then "1 " else "0 ") ++ showNats m.listed ++ " " ++ showRaw (toJSONTrust m)
+      else "ok arm=" ++ arm
+  | _, _ => "bad-case cfg-arity"
 
 /-- answer for one case line (tokens after the leading "C07") -/
 def answer (ws : List String) : String :=
@@ -155,6 +191,7 @@ def answer (ws : List String) : String :=
       else if kind == "trust" then answerTrust pre post
       else if kind == "valid" then answerValid pre post
       else if kind == "rep" then answerRep pre post
+      else if kind == "cfg" then answerCfg pre post
       else "bad-case unknown-kind"
   | [] => "bad-case empty"
 
